@@ -311,7 +311,7 @@ class Monitor:
 
     def step(self, i, op, pre, obs, world):
         kind, c = op[0], op[1]
-        hit = lambda sig, what: self.hits.append((sig, f'event {i} {list(op)}: {what}'))  # noqa: E731
+        hit = lambda sig, what: self.hits.append((sig, f'event {i} {list(op)}: {what}', i))  # noqa: E731
         told_now = {d: ms for d, ms in [(c, obs['msgs'])] + list(obs['stray'].items())
                     if any(x in self.yours for x in ms)}
         for d in told_now:
@@ -552,8 +552,9 @@ class Batch:
         if len(self.samples) < 3 and nontrivial and tag != 'exhaustive':
             self.samples.append({'connections': n, 'events': [list(o) for o in ops],
                                  'sent': [o['msgs'] for o in obs]})
-        for sig, what in hits:
-            self.hits.append((sig, what, {'n': n, 'ops': [list(o) for o in ops]}))
+        for sig, what, i in hits:
+            # the history up to and including the event at which the property fails
+            self.hits.append((sig, what, {'n': n, 'ops': [list(o) for o in ops[:i + 1]]}))
         if self.lean:
             self.cases.append((tag, n, ops, [canon_obs(o) for o in obs],
                                [o['stray'] for o in obs]))
@@ -608,7 +609,6 @@ def _random_chunk(args):
         length = r.choice([30, 60, 120, 200]) if long_ else r.choice([4, 8, 12, 20, 40])
         if r.random() < 0.7:
             ops, obs, hits = gen_valid(r, n, length)
-            # probe: a new client asks and polls once at the end
             b.add('valid', n, ops, obs, hits)
         else:
             ops = gen_malformed(r, n, length)
@@ -730,5 +730,5 @@ def replay(rep, res):
     inp = rep['input']
     ops = [norm(o) for o in inp['ops']]
     _obs, hits = run_case(inp['n'], ops)
-    for sig, what in hits:
+    for sig, what, _i in hits:
         res.hit(sig, what, inp)
